@@ -179,7 +179,7 @@ def model_checking(ctx):
 
 # ---------------------------------------------------------------------------
 def tla_event(ev):
-    e = {k: ev[k] for k in ("op", "lay", "m", "keep", "f", "typ", "cls", "k", "i", "refused", "err", "stored", "qok", "frame")}
+    e = {k: ev[k] for k in ("op", "lay", "m", "keep", "f", "typ", "cls", "k", "i", "chg", "refused", "err", "stored", "qok", "frame")}
     o = ev["obs"]
     e["obs"] = dict(layout=o["layout"], nacm=o["nacm"], massS=o["massS"], massU=o["massU"], dsT=o["dsT"], dsF=o["dsF"],
                     dm=o["dm"], gv=o["gv"], scd=o["scd"], cp=o["cp"], held=[dict(h) for h in o["held"]])
@@ -446,7 +446,7 @@ def run(ctx):
         record(evs, drv, wn, s, "tlc-simulate", j % 2 == 0)
     ctx.extra["t_real_s"] = round(time.time() - t1, 1)
     log("replays done %.1fs" % (time.time() - t1))
-    ctx.extra["histories"] = dict(random=n_random, tlc_behaviours=len(sim))
+    ctx.extra["histories"] = dict(census=len(census) * len(world_names), random=n_random, tlc_behaviours=len(sim))
     opcount = {}
     for hh in histories:
         for e in hh["events"]:
@@ -477,8 +477,9 @@ def run(ctx):
 
     nq = len(margins)
     ctx.extra["queries_compared_with_fresh_object"] = nq
-    ctx.extra["max_query_error_over_tolerance"] = max(margins) if margins else None
     finite = [m for m in margins if m <= 1.0]
+    ctx.extra["max_query_error_over_tolerance"] = max(finite) if finite else None  # of the queries that agree
+    ctx.extra["queries_differing_from_fresh_object"] = nq - len(finite)  # each one is judged by TLC (Impl / known)
     if finite and max(finite) > 1e-3:
         raise tlcmod.MachineryError("query comparison margin %.3g of the tolerance is above 1e-3 (self-check)" % max(finite))
     # TLC validates every history (batches of <= 150 histories)
